@@ -271,7 +271,7 @@ PROPS = {
     'C08': {'obligations': c08, 'bounds': 'all times of day x all u32 counts; all pairs of Times; all Durations', 'outside': ''},
     'C09': {'obligations': c09, 'bounds': 'all instants with a two-day margin at the range ends x all offsets in (-24h, 24h) x all u32/i32 candidate values', 'outside': 'the two days at each end of the range'},
     'C10': {'obligations': c10, 'bounds': 'all instants with a one-day margin at the range ends x all offsets in (-24h, 24h)', 'outside': 'the x/X zone text (C11); Offset::Local (reads /etc/localtime: C18)'},
-    'C11': {'obligations': c11, 'bounds': 'REDUCED: one-symbol patterns only: every documented symbol x widths 1..=max+2, all days / all times of day x all offsets; strings compared as terms (renderer, template, arguments)', 'outside': 'the tokenizer parse_format_string, concatenation order, literals and quoting; the `yy` field; that the leaf renderers (std formatting) print digits correctly'},
+    'C11': {'obligations': c11, 'bounds': 'REDUCED: one-symbol patterns only: every documented symbol x widths 1..=max+2, all days / all times of day x all offsets; strings compared as terms (renderer, template, arguments)', 'outside': 'the tokenizer parse_format_string, concatenation order, literals and quoting; the `yy` field for BC years (documented by AD examples only: only absence of panics is decided there); that the leaf renderers (std formatting) print digits correctly'},
     'C13': {'obligations': c13, 'bounds': 'read side only: all strings of each listed byte length (<= 45) over ASCII and two-byte UTF-8 sequences; reference reader loop unwound 30', 'outside': 'format_rfc3339 (String building); strings with 3/4-byte characters; lengths above 45'},
     'C14': {'obligations': c14, 'bounds': 'DateTime::parse_rfc3339 and DateTime::from_str only: all strings of each listed byte length (<= 45) over ASCII and two-byte UTF-8', 'outside': 'parse()/format() with pattern strings, Date/Time::from_str, CronSchedule::parse (String/Vec<String> code out of reach)'},
     'C17': {'obligations': c17, 'cfg_test': True, 'bounds': 'all schedules (any non-empty subsets of the five field ranges), clock and loop state in the stated day window (quick: 2022-2025, thorough: 1970-9999), offset 0; any number of carry steps by induction over loop iterations (meta-step)', 'outside': 'termination for unsatisfiable schedules; schedules whose pinned clock carries a non-zero offset; expression parsing (C16)'},
